@@ -697,8 +697,10 @@ Proof.
   pose proof (HT (ALoop l AltQueue) ltac:(discriminate)) as H. cbn in H. unfold step_loop in H. rewrite Hn, Hpc, Hd in H. discriminate.
 Qed.
 
-(* a loop that is left waiting for a message-ID lock in a complete run waits for a handler that is itself waiting
-   for a reply the peer never sent (or for a lock in turn) *)
+(* a loop that is left waiting for a message-ID lock in a complete run waits for a handler that is itself blocked
+   waiting for a reply (which, in the repaired code and under the hypotheses of [nested_returns] /
+   [signal_waits_return], the peer never sent): a retransmitted copy waits exactly as long as the first copy's
+   handler does *)
 Theorem lock_waits_justified c s l lp m :
   terminal c s -> nth_error (loops s) l = Some lp -> l_pc lp = PLock m ->
   exists l' lp' m', nth_error (loops s) l' = Some lp' /\ handling lp' = Some m' /\
